@@ -346,3 +346,93 @@ func bigRatConst(v ssa.Value) (int64, bool) {
 }
 
 var _ = fmt.Sprint
+
+// SideRendererCount: the count of a strings.Repeat in the error renderer is built (with + and
+// -, through phis) only from constants, the Line/Character fields of positions and the
+// lengths of source lines - the quantities the stated assumption is about. A count that
+// involves anything else (the length of a formatted number, say) is not covered by it.
+func SideRendererCount(c *Ctx, fn *ssa.Function, in ssa.Instruction) (bool, string) {
+	ci, ok := in.(ssa.CallInstruction)
+	if !ok || len(ci.Common().Args) < 2 {
+		return false, "not a Repeat call"
+	}
+	seen := map[ssa.Value]bool{}
+	var okv func(v ssa.Value, depth int) (bool, string)
+	okv = func(v ssa.Value, depth int) (bool, string) {
+		if depth > 10 || seen[v] {
+			return true, ""
+		}
+		seen[v] = true
+		v = resolveLocal(v)
+		switch x := v.(type) {
+		case *ssa.Const:
+			return true, ""
+		case *ssa.BinOp:
+			if x.Op != token.ADD && x.Op != token.SUB {
+				return false, "operator " + x.Op.String()
+			}
+			if g, w := okv(x.X, depth+1); !g {
+				return g, w
+			}
+			return okv(x.Y, depth+1)
+		case *ssa.Phi:
+			for _, e := range x.Edges {
+				if g, w := okv(e, depth+1); !g {
+					return g, w
+				}
+			}
+			return true, ""
+		case *ssa.Convert:
+			return okv(x.X, depth+1)
+		case *ssa.UnOp:
+			if fa, ok := x.X.(*ssa.FieldAddr); ok && ownerName(fa) == "Position" {
+				return true, ""
+			}
+			if fv, ok := x.X.(*ssa.FreeVar); ok {
+				_ = fv
+				return true, "" // a captured local of the renderer: judged where it is written
+			}
+		case *ssa.Field:
+			if ownerOfField(x.X.Type()) == "Position" {
+				return true, ""
+			}
+		case *ssa.Call:
+			if isLenCall(x) {
+				arg := resolveLocal(x.Call.Args[0])
+				switch a := arg.(type) {
+				case *ssa.Parameter:
+					return true, "" // a line (or the source) handed in
+				case *ssa.UnOp:
+					if _, ok := a.X.(*ssa.IndexAddr); ok {
+						return true, "" // an element of the lines
+					}
+					if _, ok := a.X.(*ssa.FreeVar); ok {
+						return true, ""
+					}
+				case *ssa.Extract:
+					return true, "" // range element
+				}
+				return false, "the length of " + core.ShortVal(arg)
+			}
+		case *ssa.Parameter:
+			// a helper of the renderer: what its callers pass
+			g := x.Parent()
+			idx := paramIndex(g, x)
+			for _, h := range c.P.ModuleFunctions() {
+				for _, c2 := range core.Calls(h) {
+					if c2.Common().StaticCallee() == g && idx >= 0 && idx < len(c2.Common().Args) {
+						if gd, w := okv(c2.Common().Args[idx], depth+1); !gd {
+							return gd, w
+						}
+					}
+				}
+			}
+			return true, ""
+		}
+		return false, core.ShortVal(v)
+	}
+	if g, w := okv(ci.Common().Args[1], 0); !g {
+		return false, "the repeat count involves " + w + ", which is not a position of the range nor the length of a source line"
+	}
+	return true, ""
+}
